@@ -631,3 +631,111 @@ def i3(ctx):
         else:
             obs.append(Ob('I3', 'Deque.%s/bounded' % meth, ok and decided > 0, 'Deque.%s: %s' % (meth, why), f.loc()))
     return obs
+
+
+# ---------------------------------------------------------------------- I4
+@rule('I4', floor=7, title='Deque comparisons have sequence semantics: NotImplemented for non-sequences, first difference decides, '
+                           'then the lengths; each dunder is built from its own operator')
+def i4(ctx):
+    """The comparison factory is specialised to each of the six operators (its parameter bound to operator.eq, ...,
+    the closure analysed with the factory's resulting locals), so it does not matter whether a decision is taken in
+    the factory or in the closure."""
+    obs = []
+    try:
+        f = ctx.func('persistent._make_compare.<locals>.compare')
+    except AnalysisError:
+        return [Ob('I4', 'Deque/compare-shape', True, 'not decided: comparisons are not built by one factory', '',
+                   nontrivial=False)] * 7
+    maker = f.parent
+    opname = maker.posparams[0]
+    from .interp import Interp
+    res = {k: [True, None] for k in ('non-sequence', 'length-shortcut', 'first-difference', 'equal-prefix', 'only-these')}
+    counts = dict.fromkeys(res, 0)
+    for which in ('eq', 'ne', 'lt', 'gt', 'le', 'ge'):
+        opv = V('extfn', 'operator.' + which)
+        it = Interp(ctx.prog, ctx.opts('plain'))
+        mpaths = [p for p in it.run(maker, env={opname: opv}) if p.kind == 'return']
+        if not mpaths:
+            raise AnalysisError('I4: the comparison factory does not return for operator.%s' % which)
+        for mp in mpaths:
+            env = {k: v for k, v in mp.st.env.items() if k not in f.posparams}
+            it2 = Interp(ctx.prog, ctx.opts('plain'))
+            for p in it2.run(f, env=env):
+                if p.kind != 'return':
+                    continue
+                tr = p.trace
+                rv = p.outcome[1]
+                tests = [e for e in tr if e.kind == 'TEST']
+                inst = [e for e in tests if e.d['val'].k == 'term' and e.d['val'].a[0] == 'isinstance']
+                not_seq = any(not e.d['truth'] for e in inst)
+                if not_seq or (rv.k == 'builtin' and rv.a[0] == 'NotImplemented'):
+                    counts['non-sequence'] += 1
+                    if not (not_seq and rv.k == 'builtin' and rv.a[0] == 'NotImplemented'):
+                        res['non-sequence'] = [False, fmt_trace(tr)]
+                    continue
+                lens_differ = any(e.d['truth'] and e.d['val'].k == 'cmp' and e.d['val'].a[0] == ('NotEq',)
+                                  and all(x.k == 'term' and x.a[0] == 'len' for x in e.d['val'].a[1]) for e in tests)
+                if rv.is_const:
+                    counts['length-shortcut'] += 1
+                    want = {'eq': False, 'ne': True}.get(which, 'none')
+                    if not (lens_differ and rv.val is want):
+                        res['length-shortcut'] = [False, ['operator.%s' % which] + fmt_trace(tr)]
+                    continue
+                call = tr[rv.a[1]] if rv.k == 'ext' and isinstance(rv.a[1], int) else None
+                if call is not None and call.kind == 'EXT' and call.d['name'] == 'operator.' + which:
+                    args = call.d['args']
+                    before = [e for e in tr[:call.seq] if e.kind == 'TEST']
+                    if len(args) == 2 and all(a_.k == 'field' and a_.a[0].k == 'elem' for a_ in args):
+                        counts['first-difference'] += 1
+                        last = before[-1] if before else None
+                        good = last is not None and last.d['truth'] and last.d['val'].k == 'cmp' and \
+                            last.d['val'].a[0] == ('NotEq',) and tuple(last.d['val'].a[1]) == tuple(args) and \
+                            args[0].a[1] == 0 and args[1].a[1] == 1 and args[0].a[0] == args[1].a[0]
+                        zipv = args[0].a[0].a[0]
+                        good = good and zipv.k == 'term' and zipv.a[0] == 'zip' and len(zipv.a[1]) == 2 and \
+                            zipv.a[1][0].k == 'param' and zipv.a[1][0].a[0] == f.posparams[0] and \
+                            zipv.a[1][1].k == 'param' and zipv.a[1][1].a[0] == f.posparams[1]
+                        if not good:
+                            res['first-difference'] = [False, fmt_trace(tr)]
+                        continue
+                    if len(args) == 2 and all(a_.k == 'term' and a_.a[0] == 'len' for a_ in args):
+                        counts['equal-prefix'] += 1
+                        good = args[0].a[1][0].k == 'param' and args[0].a[1][0].a[0] == f.posparams[0] and \
+                            args[1].a[1][0].k == 'param' and args[1].a[1][0].a[0] == f.posparams[1]
+                        if any(e.d['truth'] and e.d['val'].k == 'cmp' and e.d['val'].a[0] == ('NotEq',)
+                               and all(x.k == 'field' for x in e.d['val'].a[1]) for e in tests):
+                            good = False
+                        # for == and != a length mismatch was already answered: here the lengths are equal or the
+                        # operator orders them
+                        if not good:
+                            res['equal-prefix'] = [False, fmt_trace(tr)]
+                        continue
+                counts['only-these'] += 1
+                res['only-these'] = [False, ['operator.%s' % which] + fmt_trace(tr)]
+    msgs = {
+        'non-sequence': 'comparison with a non-sequence does not return NotImplemented (or returns it for sequences)',
+        'length-shortcut': 'a constant is returned for sequences of different length other than False for == and True '
+                           'for !=',
+        'first-difference': 'the first differing pair of zip(self, that) does not decide the comparison through the '
+                            'method\'s own operator',
+        'equal-prefix': 'when no pair differs the result is not the operator applied to the two lengths',
+        'only-these': 'the comparison returns something other than NotImplemented / the == and != length shortcuts / the '
+                      'operator applied to the first differing pair / the operator applied to the lengths',
+    }
+    for k, (ok, wit) in res.items():
+        need = k != 'only-these'
+        obs.append(Ob('I4', 'Deque.compare/' + k, ok and (counts[k] > 0 or not need), msgs[k], f.loc(), wit))
+    # the dunder table of the class
+    ci = ctx.prog.classes['Deque']
+    want = {'__eq__': 'eq', '__ne__': 'ne', '__lt__': 'lt', '__gt__': 'gt', '__le__': 'le', '__ge__': 'ge'}
+    got = {}
+    for n in ci.node.body:
+        if isinstance(n, ast.Assign) and len(n.targets) == 1 and isinstance(n.targets[0], ast.Name) \
+                and n.targets[0].id in want and isinstance(n.value, ast.Call) and n.value.args:
+            got[n.targets[0].id] = ctx.prog.resolve_name(ci.module, dotted(n.value.args[0]) or '')
+    okt = all(got.get(k) == 'operator.' + v for k, v in want.items())
+    obs.append(Ob('I4', 'Deque/dunder-table', okt, 'the comparison methods of Deque are not each built from their own '
+                  'operator: %s' % got, 'diskcache/persistent.py:%d' % ci.node.lineno))
+    obs.append(Ob('I4', 'Deque/has-comparisons', len(got) == 6, 'Deque does not define all six rich comparisons',
+                  'diskcache/persistent.py:%d' % ci.node.lineno))
+    return obs
